@@ -183,9 +183,69 @@ func init() {
 			}(i, s)
 		}
 		wg.Wait()
+		// the throttle over UDP virtual connections: datagrams larger than the burst are read in pieces
+		udpRuns := 0
+		for _, size := range []int{200, 250, 300, 100} {
+			tr, err := runThrottleUDP(size, 100, udpRuns)
+			if err != nil {
+				errs = append(errs, err.Error())
+				continue
+			}
+			lw.Write(tr)
+			udpRuns++
+		}
 		if err := lw.Close(); err != nil {
 			return err
 		}
-		return writeJSON(*sum, map[string]any{"runs": len(scens), "errors": errs, "pull_events": pulls, "samples": samples})
+		return writeJSON(*sum, map[string]any{"runs": len(scens), "udp_runs": udpRuns, "errors": errs, "pull_events": pulls, "samples": samples})
 	})
+}
+
+// runThrottleUDP: three datagrams of `size` bytes from one client through the real servePacket loop, a throttle with
+// burst `burst` (so that each datagram is read in pieces of at most `burst` bytes) and a handler reading three
+// datagrams. Judged by G4 only: the bytes of the three datagrams arrive completely and in order.
+func runThrottleUDP(size, burst, idx int) (map[string]any, error) {
+	rec := vh.NewRecorder(nil)
+	pc := vh.NewFakePC(rec)
+	ctx, cancel := caddy.NewContext(caddy.Context{Context: context.Background()})
+	defer cancel()
+	routes := []map[string]any{{"handle": []map[string]any{
+		{"handler": "throttle", "read_bytes_per_second": 8000, "read_burst_size": burst},
+		{"handler": "verif_h", "k": "udp", "n": 3, "buf": 9000}}}}
+	b, _ := json.Marshal(routes)
+	srv := &layer4.Server{MatchingTimeout: caddy.Duration(5 * time.Second)}
+	if err := json.Unmarshal(b, &srv.Routes); err != nil {
+		return nil, err
+	}
+	if err := srv.Provision(ctx, zap.NewNop()); err != nil {
+		return nil, err
+	}
+	vh.RegisterRec(vh.ClientAddr(1).String(), rec)
+	go layer4.VerifServePacket(srv, pc)
+	for seq := 1; seq <= 3; seq++ {
+		pc.Inject(1, seq, size)
+	}
+	// 3*size bytes at 8000 B/s: well under a second
+	last, stable := -1, 0
+	for i := 0; i < 600 && stable < 40; i++ {
+		time.Sleep(5 * time.Millisecond)
+		if n := rec.Len(); n == last {
+			stable++
+		} else {
+			last, stable = n, 0
+		}
+	}
+	pc.Close()
+	segs := vh.Segs{}
+	for _, e := range rec.Snapshot() {
+		if e["e"] == "Dlv" && e["c"] == "c1" {
+			seq, n := e["seq"].(int), e["n"].(int)
+			if n > 0 {
+				segs = append(segs, [2]int{(seq - 1) * size, (seq-1)*size + n})
+			}
+		}
+	}
+	return map[string]any{"id": fmt.Sprintf("throttle:udp:%d:size%d", idx, size), "scen": map[string]any{"transport": "udp", "size": size, "burst": burst, "datagrams": 3},
+		"rate": 0, "burst": 0, "trate": 0, "tburst": 0, "latency": 0, "eps": 2, "ev": []vh.Ev{},
+		"reads": map[string]any{"1": map[string]any{"segs": segs, "slen": 3 * size}}, "t0": map[string]any{"1": 0}, "tt0": 0}, nil
 }
